@@ -27,27 +27,27 @@ import (
 
 // Signature / signing-key type codes (published table).
 const (
-	SigDSA      = 0
-	SigP256     = 1
-	SigP384     = 2
-	SigP521     = 3
-	SigRSA2048  = 4
-	SigRSA3072  = 5
-	SigRSA4096  = 6
-	SigEd25519  = 7
+	SigDSA       = 0
+	SigP256      = 1
+	SigP384      = 2
+	SigP521      = 3
+	SigRSA2048   = 4
+	SigRSA3072   = 5
+	SigRSA4096   = 6
+	SigEd25519   = 7
 	SigEd25519ph = 8
-	SigRedDSA   = 11
+	SigRedDSA    = 11
 )
 
 // Encryption key type codes.
 const (
-	EncElGamal = 0
-	EncP256    = 1
-	EncP384    = 2
-	EncP521    = 3
-	EncX25519  = 4
-	EncMLKEM512 = 5
-	EncMLKEM768 = 6
+	EncElGamal   = 0
+	EncP256      = 1
+	EncP384      = 2
+	EncP521      = 3
+	EncX25519    = 4
+	EncMLKEM512  = 5
+	EncMLKEM768  = 6
 	EncMLKEM1024 = 7
 )
 
